@@ -124,6 +124,12 @@ NESTED = [
     "(eval (read (open-input-string (string-append (apply string-append (make-list %d \"(car \")) \"'(1)\" (make-string %d #\\))))) (interaction-environment))",
     "(string->number (make-string %d #\\9))",
     "(let loop ((i 0) (x '())) (if (= i %d) (length x) (loop (+ i 1) (cons i x))))",
+    # huge x deep: an argument list longer than the whole evaluation stack spread by apply from inside non-tail recursion (the stack must grow by
+    # more than it doubles while a good part of it is in use)
+    "(let rec ((d 60)) (if (= d 0) (apply + (make-list %d 1)) (+ 1 (rec (- d 1)))))",
+    "(let rec ((d 200)) (if (= d 0) (length (apply list (make-list %d 'a))) (+ 1 (rec (- d 1)))))",
+    "(let rec ((d 30)) (if (= d 0) (vector-length (apply vector 1 2 (make-list %d 0))) (+ 1 (rec (- d 1)))))",
+    "(let rec ((d 100)) (if (= d 0) (apply (lambda (a . r) (length r)) (make-list %d 0)) (+ 1 (rec (- d 1)))))",
 ]
 
 
@@ -226,6 +232,8 @@ def gen_form(rng, light=False):
         n = rng.choice([10, 300, 1000]) if light else rng.choice([10, 1000, 5000, 20000])
         if "(car " in t:
             n = min(n, 2000)
+        if "(let rec ((d" in t:
+            n = rng.choice([3000, 20000, 40000])
         return {"src": t % tuple([n] * t.count("%d")), "kind": "nested"}
     return {"src": rng.choice(["(string-set! SLIT 0 #\\x)", "(vector-set! VLIT 0 'x)", "(set-car! '(1 2) 9)", "(string-fill! \"lit\" #\\z)", "(bytevector-u8-set! #u8(1 2) 0 9)",
                                "(string-copy! SLIT 0 S5)", "(list-set! '(1 2 3) 1 'x)", "(vector-fill! VLIT 0)"]), "kind": "literal-mutation"}
